@@ -83,7 +83,11 @@ func c10PredInput(v *vrt.T, pred int, fkinds []int) (models.Fields, models.Tags)
 	}
 	switch pred {
 	case 2:
-		if x, ok := c10Field(v, []int{c10Int, c10Float, c10Missing}); ok {
+		gk := []int{c10Int, c10Float, c10Missing}
+		if v.Bound("gnomissing", 0) == 1 {
+			gk = []int{c10Int, c10Float}
+		}
+		if x, ok := c10Field(v, gk); ok {
 			fields["g"] = x
 		}
 	default:
